@@ -90,6 +90,7 @@ fn judge<T: Tier>(ctx: &mut Ctx, q: Q4<T>, exact_branch: Option<&'static str>) {
         eq_vc::<T, 4>(ctx, &key("rotate/Matrix4-direction"), v4(h), model::extend::<_, 3, 4>(want, T::M::zero()), slack);
         // ... and through the Transform entry point for directions
         eq_vc::<T, 3>(ctx, &key("rotate/Matrix4-transform_vector"), v3(<Matrix4<T> as cgmath::Transform<Point3<T>>>::transform_vector(&m4c, cv)), want, slack);
+        eq_vc::<T, 3>(ctx, &key("rotate/Matrix3-transform_vector"), v3(<Matrix3<T> as cgmath::Transform<Point3<T>>>::transform_vector(&m3c, cv)), want, slack);
     }
     // back to a quaternion: q or -q
     let classify = |m: Matrix3<T>| -> &'static str {
